@@ -61,7 +61,7 @@ def tree_hash(variant):
         with open(f, "rb") as fh:
             h.update(hashlib.sha256(fh.read()).digest())
     for f in sorted(os.listdir(HERE)):
-        if f.endswith((".cpp", ".h", ".py")):
+        if f.endswith((".cpp", ".h", ".py", ".inc")):
             with open(os.path.join(HERE, f), "rb") as fh:
                 h.update(f.encode())
                 h.update(hashlib.sha256(fh.read()).digest())
